@@ -4,7 +4,7 @@
 (b) every pure native built-in called with every argument tuple of arity 0..2 over a value alphabet with one value per kind and
     boundary magnitudes; a failing function is narrowed to the single argument tuple;
 (c) BFS over histories of good and failing evaluations on one engine with the probe after every step."""
-import sys, json, re, itertools
+import time, sys, json, re, itertools
 from . import common
 
 P = "C07"
@@ -79,14 +79,24 @@ DENY = re.compile(
 NOTE_DENY = "names matching the effect deny-list (file system, processes, threads, channels, time, environment, eval/load, ports to the outside, internal #%/## names)"
 
 N = len(VALS)
-TOTAL = 1 + N + N * N
-BUILTIN_PRELUDE = ("(struct vf-P (a) #:transparent) (define (vf-mk) (vector %s)) "
+# three- and four-argument tuples over smaller alphabets (one value per kind that lets a call get past its first checks)
+VALS3 = ["0", "\"a\"", "'(\"a\" \"b\")", "'()", "#\\a", "(lambda (x) x)", "(vector 1)"]
+VALS4 = ["1", "\"a\"", "'(\"a\")", "(hash)"]
+N3, N4 = len(VALS3), len(VALS4)
+T2 = 1 + N + N * N
+T3 = T2 + N3 ** 3
+TOTAL = T3 + N4 ** 4
+BUILTIN_PRELUDE = ("(struct vf-P (a) #:transparent) (define (vf-mk) (vector %s)) (define (vf-mk3) (vector %s)) (define (vf-mk4) (vector %s)) "
                    "(define (vf-try thunk) (with-handler (lambda (e) 'e) (begin (thunk) 'k))) "
                    "(define (vf-call f t vs ws) (cond ((= t 0) (f)) ((<= t {N}) (f (vector-ref vs (- t 1)))) "
-                   "(else (let ((u (- t {N} 1))) (f (vector-ref vs (quotient u {N})) (vector-ref ws (remainder u {N}))))))) "
+                   "((< t {T2}) (let ((u (- t {N} 1))) (f (vector-ref vs (quotient u {N})) (vector-ref ws (remainder u {N}))))) "
+                   "((< t {T3}) (let ((u (- t {T2})) (a (vf-mk3)) (b (vf-mk3)) (c (vf-mk3))) (f (vector-ref a (quotient u {N3N3})) (vector-ref b (remainder (quotient u {N3}) {N3})) (vector-ref c (remainder u {N3}))))) "
+                   "(else (let ((u (- t {T3})) (a (vf-mk4)) (b (vf-mk4)) (c (vf-mk4)) (d (vf-mk4))) (f (vector-ref a (quotient u {N4c})) (vector-ref b (remainder (quotient u {N4s}) {N4})) "
+                   "(vector-ref c (remainder (quotient u {N4}) {N4})) (vector-ref d (remainder u {N4}))))))) "
                    "(define (vf-sweep f start) (let ((vs (vf-mk)) (ws (vf-mk))) (let loop ((t start) (k 0)) (if (>= t {T}) k "
                    "(begin (vf-mark t) (loop (+ t 1) (if (eq? 'k (vf-try (lambda () (vf-call f t vs ws)))) (+ k 1) k)))))))"
-                   ).replace("{N}", str(N)).replace("{T}", str(TOTAL)) % " ".join(VALS)
+                   ).replace("{N3N3}", str(N3 * N3)).replace("{N4c}", str(N4 ** 3)).replace("{N4s}", str(N4 ** 2)).replace("{N3}", str(N3)).replace("{N4}", str(N4)) \
+                    .replace("{T2}", str(T2)).replace("{T3}", str(T3)).replace("{N}", str(N)).replace("{T}", str(TOTAL)) % (" ".join(VALS), " ".join(VALS3), " ".join(VALS4))
 
 
 def call_text(fn, t):
@@ -94,8 +104,14 @@ def call_text(fn, t):
         return "(%s)" % fn
     if t <= N:
         return "(%s %s)" % (fn, VALS[t - 1])
-    u = t - N - 1
-    return "(%s %s %s)" % (fn, VALS[u // N], VALS[u % N])
+    if t < T2:
+        u = t - N - 1
+        return "(%s %s %s)" % (fn, VALS[u // N], VALS[u % N])
+    if t < T3:
+        u = t - T2
+        return "(%s %s %s %s)" % (fn, VALS3[u // (N3 * N3)], VALS3[(u // N3) % N3], VALS3[u % N3])
+    u = t - T3
+    return "(%s %s %s %s %s)" % (fn, VALS4[u // N4 ** 3], VALS4[(u // N4 ** 2) % N4], VALS4[(u // N4) % N4], VALS4[u % N4])
 
 
 def work_builtins(fns):
@@ -104,10 +120,21 @@ def work_builtins(fns):
     env = dict(ENV, SVH_CHILD_AS_MB="6000")
     calls, oks, fails, capped = 0, 0, [], []
     for f in fns:
-        start, hangs, nf = 0, 0, 0
+        start, hangs, nf, t_fail = 0, 0, 0, 0.0
         while start < TOTAL:
             case = {"id": 0, "stop_on_panic": True, "steps": [BUILTIN_PRELUDE, "(vf-sweep %s %d)" % (f, start), "(+ 1 2)"]}
-            r = common.run_cases([case], env=env, batch=1, timeout_ms=8000)[0]
+            _ts = time.time()
+            r = common.run_cases([case], env=env, batch=1, timeout_ms=8000, retry_timeouts=False)[0]
+            _dt = time.time() - _ts
+            if r["exit"] == "timeout" and r.get("last_mark") is not None:
+                # a sweep that ran out of time is only a hang of the marked call if that call, alone, also runs out of time
+                one = {"id": 0, "stop_on_panic": True, "steps": [BUILTIN_PRELUDE, "(vf-try (lambda () %s))" % call_text(f, r["last_mark"]), "(+ 1 2)"]}
+                r1 = common.run_cases([one], env=env, batch=1, timeout_ms=6000, retry_timeouts=False)[0]
+                if r1["exit"] == "normal" and len(r1["steps"]) == 3 and r1["steps"][2]["s"] == "ok":
+                    # the machine was slow, not the call: resume the sweep after it (the call itself was just evaluated alone)
+                    calls += r["last_mark"] - start + 1
+                    start = r["last_mark"] + 1
+                    continue
             if r["exit"] == "normal" and len(r["steps"]) == 3 and r["steps"][1]["s"] == "ok" and r["steps"][2]["s"] == "ok":
                 oks += int(r["steps"][1]["v"][-1][3:-1])
                 calls += TOTAL - start
@@ -131,7 +158,8 @@ def work_builtins(fns):
             nf += 1
             if r["exit"] == "timeout":
                 hangs += 1
-            if hangs >= 3 or nf >= 40:
+            t_fail += _dt
+            if hangs >= 3 or nf >= 40 or t_fail > 25:
                 capped.append(f)
                 break
             start = t + 1
@@ -261,7 +289,10 @@ def main(argv=None):
     # JIT-on pass over the subset that reaches execution most often (every 1- and 2-token text)
     short = [t for t in texts if len(t.split(" ")) <= 2]
     items += [(None, ch) for ch in common.chunks(list(enumerate(short)), 2000)]
+    import time as _t
+    _t0 = _t.time()
     tres = common.pmap(work_texts, items)
+    _t1 = _t.time()
     n_text = sum(r[0] for r in tres)
     tcounts = {}
     for r in tres:
@@ -275,6 +306,7 @@ def main(argv=None):
     tested = [f for f in nat if not DENY.search(f)]
     denied = [f for f in nat if DENY.search(f) and not f.startswith("#")]
     bres = common.pmap(work_builtins, common.split_round_robin(tested, 64))
+    _t2 = _t.time()
     n_calls = sum(r[1] for r in bres)
     n_oks = sum(r[2] for r in bres)
     capped_fns = [f for r in bres for f in r[4]]
@@ -288,7 +320,10 @@ def main(argv=None):
         if key in seen:
             continue
         seen.add(key)
-        rep.violation("builtin %s => %s %s" % (call, cls, loc), {"call": call, "class": cls, "detail": detail},
+        # the kind of death of a call that exhausts a resource (time-out, abort on allocation failure, kill) depends on the machine's load and
+        # memory: one class "crash"; the location is relative to the repository root
+        loc = re.sub(r"^.*?/(crates/)", r"\1", loc)
+        rep.violation("builtin %s => %s %s" % (call, cls.split(":")[0], loc), {"call": call, "class": cls, "detail": detail},
                       {"case": {"steps": [BUILTIN_PRELUDE, call, "(+ 1 2)"]}, "env": ENV})
     # (c) histories
     depth = 4 if thorough else 3
@@ -297,6 +332,7 @@ def main(argv=None):
     for n in range(1, depth + 1):
         hists += list(itertools.product(range(len(EVENTS)), repeat=n))
     hres = common.pmap(work_hist, common.chunks(list(enumerate(hists)), 120))
+    _t3 = _t.time()
     n_hist = sum(r[0] for r in hres)
     hf = sorted([f for r in hres for f in r[1]], key=lambda f: (len(f[0]), f[0]))
     hkept = []
@@ -311,14 +347,14 @@ def main(argv=None):
            "rule": "(a) every sequence of <= %d tokens from a %d-token menu (space-joined, and unspaced up to 2) and every string of <= %d "
                    "characters over a %d-character byte-level alphabet, evaluated with JIT off (all) and JIT on (<= 2 tokens), probe + stack depths "
                    "after each; (b) %d pure native built-ins x every argument tuple of arity 0..2 over %d values (one per kind + boundary "
-                   "magnitudes), in-engine loops, failing functions narrowed to single calls in separate children; (c) every history of <= %d events "
+                   "magnitudes), every 3-tuple over 7 and every 4-tuple over 4 values, in-engine loops, failing functions narrowed to single calls in separate children; (c) every history of <= %d events "
                    "from %d event kinds with probe/stack/definition checks after every step. non-trivial = texts that evaluate without error, "
                    "built-in calls that return a value, histories" % (L, len(TOKENS), 3 if thorough else 2, len(BYTES), len(tested), len(VALS), depth, len(EVENTS)),
            "samples": [texts[4000], texts[-5], "(%s %s %s)" % (tested[100], VALS[6], VALS[20]), " ; ".join(EVENTS[e][0] for e in hists[-7])],
            "exhaustive": True, "texts": n_text, "text_outcomes": tcounts, "builtins_tested": len(tested), "builtin_calls": n_calls,
            "builtin_calls_returning": n_oks, "builtins_denied": denied, "deny_rule": NOTE_DENY, "histories": n_hist,
-           "builtins_needing_narrowing": bad,
-           "narrowing_capped_after_3_hangs": capped_fns}
+           "builtins_needing_narrowing": bad, "phase_seconds": {"texts": round(_t1 - _t0), "builtins": round(_t2 - _t1), "histories": round(_t3 - _t2)},
+           "narrowing_capped_after_3_hangs_or_25s_or_40_failures": capped_fns}
     return rep.finish("exploration", cov, assumptions=[
         "effectful built-ins are excluded by name (listed in coverage.builtins_denied)",
         "child address space limited to 6 GB: allocation failure counts as a crash of the host",
